@@ -56,6 +56,15 @@ func genC16(seed uint64, tier string) *Plan {
 		p.Knobs["p_park"] = []float64{0.3, 0.7, 1}[r.intn(3)]
 		p.Knobs["workers"] = float64(r.rng(1, 2))
 	}
+	// one run in eight: the application blacklists, directly through the implementation and from
+	// inside a tracer callback (i.e. on the event loop, between two messages of one RPC), whoever
+	// sends a message that violates the signing policy
+	blr := r.chance(0.12)
+	if blr {
+		p.Knobs["bl_on_reject"] = 1
+		p.SK["sign"] = "strictnosign"
+		p.Knobs["nval_default"], p.Knobs["topic_val"], p.Knobs["topic_val_all"] = 0, 0, 0
+	}
 	nt := p.ki("ntopics", 1)
 	add := func(op string, a ...int64) { p.Items = append(p.Items, Item{Op: op, A: a}) }
 	// one run in five: the node only PUBLISHES to its last topic (no subscription), so that peers
@@ -109,7 +118,13 @@ func genC16(seed uint64, tier string) *Plan {
 		x := r.intn(100)
 		switch {
 		case x < 20:
-			add("pub", 1, t, int64(r.rng(8, 80))) // target publishes
+			if blr && r.chance(0.4) {
+				// one RPC from the target: a message with a signature (refused under the no-sign policy),
+				// then a well-formed message written by somebody else
+				add("pub2", t, int64(r.rng(8, 80)), int64([]int{0, 2, 3}[r.intn(3)]%np))
+			} else {
+				add("pub", 1, t, int64(r.rng(8, 80))) // target publishes
+			}
 		case x < 26:
 			add("fwd", int64(r.intn(np)), t, int64(r.rng(8, 80)), 1) // third party forwards a message authored by the target
 		case x < 30:
@@ -126,6 +141,14 @@ func genC16(seed uint64, tier string) *Plan {
 		case x < 74:
 			add("adv", int64(r.rng(10, 1500)))
 		case x < 80 && !done:
+			switch z := r.intn(12); z {
+			case 0:
+				add("direct-add", 1) // a mesh or fanout member pinned as direct peer at run time
+			case 1:
+				add("unsub", 1, t) // in the mesh, no longer in the topic
+			case 2:
+				add("graft", 1, int64(nt-1)) // grafted without ever subscribing
+			}
 			if fanT >= 0 && r.chance(0.7) {
 				add("node-pub", int64(fanT), int64(r.rng(8, 60)))
 				add("adv", int64(r.rng(1, 3000)))
@@ -174,13 +197,22 @@ func genC16(seed uint64, tier string) *Plan {
 			add("sub", 1, t)
 		case x < 93:
 			add("graft", 1, t)
+		case x < 94:
+			// anybody asks for a message the node has seen (after the blacklisting: also for those the
+			// target wrote or delivered before it)
+			add("iwant", int64(r.intn(np)), int64(r.intn(8)))
 		case x < 95:
-			add("iwant", 1, int64(r.intn(5)))
+			// the node's own application publishes under the target's identity
+			add("node-pub-as", t, int64(r.rng(8, 60)))
 		case x < 97:
 			add("adv", int64(r.rng(5000, 40000)))
 		default:
 			add("release-all")
 		}
+	}
+	if r.chance(0.3) {
+		add("iwant", int64(r.intn(np)), int64(r.intn(8)))
+		add("node-pub-as", 0, 20)
 	}
 	if !done {
 		if fanT >= 0 {
@@ -260,6 +292,72 @@ func runC16(s *sim) {
 		if a {
 			s.park("loop-request", nil, nil, nil)
 		}
+	}
+	reacted := false
+	if p.kb("bl_on_reject") {
+		w.n.onRaw = func(r *rawRec) {
+			// (tracer callback: event loop goroutine)
+			if r.kind != "reject" || r.from != tid || r.reason != RejectUnexpectedSignature {
+				return
+			}
+			s.mu.Lock()
+			first := !reacted
+			reacted = true
+			s.mu.Unlock()
+			if first {
+				bl.Add(tid)
+			}
+		}
+	}
+	w.extraOps["pub2"] = func(it Item) {
+		fp, au := w.fake(1), w.fake(int(it.a(2)))
+		if fp == nil || au == nil || au == fp || !fp.outAlive() || len(s.parkedGates()) > 0 {
+			return
+		}
+		topic := w.topicName(it.a(0))
+		bad := fp.signedMsg(topic, w.mkData(int(it.a(1))))
+		good := w.newMsg(au, topic, w.mkData(int(it.a(1))+1))
+		w.sent[midOf(good)] = good
+		w.noteSentBy(fp, good)
+		s.mu.Lock()
+		was := reacted
+		s.mu.Unlock()
+		// marks before the RPC: the refused message comes first, so nothing that arrives with or
+		// after it from the target may be delivered or forwarded once the callback has reacted
+		dm := map[int]int{}
+		for _, ss := range w.n.subs {
+			dm[ss.id] = len(ss.messages())
+		}
+		fm := map[int]int{}
+		for i, f := range w.fakes {
+			fm[i] = len(f.recv)
+		}
+		fp.send(rpcPub(bad, good))
+		s.settle()
+		s.mu.Lock()
+		now := reacted
+		s.mu.Unlock()
+		if !was && now && T < 0 {
+			s.probe("bl_from_tracer_callback_inside_an_rpc")
+			s.logf("BLACKLIST direct add from the tracer callback")
+			T = s.now()
+			target = fp
+			delivMark, frameMark = dm, fm
+		}
+	}
+	w.extraOps["node-pub-as"] = func(it Item) {
+		kr := newPrng(p.Seed, "fakekey1")
+		key := genKey(kr, 0)
+		topic := w.topicName(it.a(0))
+		data := w.mkData(int(it.a(1)))
+		s.probe("own_publication_under_the_target_identity")
+		s.do("Publish(WithSecretKeyAndPeerId target) "+topic, func() any {
+			t, err := w.n.topic(topic)
+			if err != nil {
+				return err
+			}
+			return t.Publish(s.bgctx(), data, WithSecretKeyAndPeerId(key, tid))
+		})
 	}
 	w.extraOps["bl"] = func(it Item) {
 		if T >= 0 && (viaAPI || it.a(1) != 1 || !active()) {
